@@ -79,7 +79,7 @@ func c11Closure(c *core.Ctx, r *core.Reporter) {
 		return
 	}
 	seeds := map[string]bool{}
-	core.Instrs(ns, func(in ssa.Instruction) {
+	c.RegionInstrs(ns, func(in ssa.Instruction) { // NewSchema or the phases it has been split into
 		call, ok := in.(*ssa.Call)
 		if !ok {
 			return
@@ -215,8 +215,19 @@ func c11Unique(c *core.Ctx, r *core.Reporter) {
 			next, _ := nextStmt(list, i).(*ast.IfStmt)
 			okNext := false
 			if next != nil {
-				s := core.ExprString(next.Cond)
-				okNext = strings.Contains(s, ".err != nil") || strings.Contains(s, ".Error() != nil")
+				// the if reads the parked error: the err field or Error(), in its condition or in its init statement
+				// (`if err = t.Error(); err != nil`)
+				for _, part := range []ast.Node{next.Init, next.Cond} {
+					if part == nil || reflectIsNil(part) {
+						continue
+					}
+					ast.Inspect(part, func(y ast.Node) bool {
+						if se, ok := y.(*ast.SelectorExpr); ok && (se.Sel.Name == "err" || se.Sel.Name == "Error") {
+							okNext = true
+						}
+						return true
+					})
+				}
 			}
 			if !okNext {
 				bad = core.N(f)
@@ -481,49 +492,86 @@ func shorten(s string, n int) string {
 }
 
 func c11Nil(c *core.Ctx, r *core.Reporter) {
-	// NewSchema: elements of SchemaConfig.Types / Directives are nil-tested before a method call / field read
-	p, fd := c.FindDecl("", "NewSchema")
-	if fd == nil {
+	// NewSchema (or the phases it is split into): the elements of the caller-supplied lists — every loop over a []Type or a
+	// []*Directive there — are compared with nil before anything is read from them or called on them
+	ns := c.Func("", "NewSchema")
+	if ns == nil {
 		r.Unknown("NewSchema", token.NoPos, "not found")
 		return
 	}
-	info := p.TypesInfo
 	n := 0
-	ast.Inspect(fd.Body, func(x ast.Node) bool {
-		rs, ok := x.(*ast.RangeStmt)
-		if !ok || rs.Value == nil {
-			return true
-		}
-		src := core.ExprString(rs.X)
-		if src != "schema.directives" && src != "initialTypes" {
-			return true
-		}
-		n++
-		v := core.ObjOf(info, rs.Value)
-		// first statement must be a nil test of the element that leaves the iteration
-		okNil := false
-		if len(rs.Body.List) > 0 {
-			if iff, ok := rs.Body.List[0].(*ast.IfStmt); ok {
-				s := core.ExprString(iff.Cond)
-				init := ""
-				if iff.Init != nil {
-					if as, ok := iff.Init.(*ast.AssignStmt); ok && len(as.Rhs) == 1 {
-						init = core.ExprString(as.Rhs[0])
+	per := map[string]int{}
+	for _, g := range c.Region(ns) {
+		core.Instrs(g, func(in ssa.Instruction) {
+			ia, ok := in.(*ssa.IndexAddr)
+			if !ok {
+				return
+			}
+			sl, ok := ia.X.Type().Underlying().(*types.Slice)
+			if !ok {
+				return
+			}
+			en := core.TypeName(sl.Elem())
+			if en != "Type" && en != "Directive" {
+				return
+			}
+			if _, isConst := ia.Index.(*ssa.Const); isConst || !core.InAnyLoop(ia.Block()) {
+				return
+			}
+			// the element value(s) loaded from this slot
+			for _, ref := range *ia.Referrers() {
+				e, ok := ref.(*ssa.UnOp)
+				if !ok || e.Op != token.MUL {
+					continue
+				}
+				var derefs []ssa.Instruction
+				var tests []ssa.Instruction
+				for _, u := range *e.Referrers() {
+					switch x := u.(type) {
+					case ssa.CallInstruction:
+						if x.Common().IsInvoke() && x.Common().Value == ssa.Value(e) {
+							derefs = append(derefs, u)
+						}
+					case *ssa.FieldAddr:
+						if x.X == ssa.Value(e) {
+							derefs = append(derefs, u)
+						}
+					case *ssa.BinOp:
+						if (x.Op == token.NEQ || x.Op == token.EQL) && (core.IsNilConst(x.X) || core.IsNilConst(x.Y)) {
+							tests = append(tests, u)
+						}
 					}
 				}
-				if strings.Contains(s+init, core.N(v)+" != nil") || strings.Contains(s+init, core.N(v)+" == nil") {
-					okNil = true
+				if len(derefs) == 0 {
+					continue
 				}
+				n++
+				what := map[string]string{"Type": "types", "Directive": "directives"}[en]
+				per[what]++
+				key := "NewSchema/" + what + "/nil-element"
+				if per[what] > 1 {
+					key = fmt.Sprintf("%s#%d", key, per[what])
+				}
+				okNil := true
+				for _, d := range derefs {
+					dominated := false
+					for _, t := range tests {
+						if core.InstrDominates(t, d) {
+							dominated = true
+						}
+					}
+					if !dominated {
+						okNil = false
+					}
+				}
+				r.Check(okNil, key, ia.Pos(), "elements are compared with nil before anything is read from them",
+					"NewSchema uses the elements of the caller-supplied "+what+" without a nil test: a nil entry makes NewSchema panic instead of returning an error")
 			}
-		}
-		r.Check(okNil, "NewSchema/"+src+"/nil-element", rs.Pos(), "elements are nil-tested before use",
-			"NewSchema uses the elements of "+src+" (caller-supplied) without a nil test: a nil entry makes NewSchema panic instead of returning an error")
-		return true
-	})
-	if n < 2 {
-		r.Unknown("NewSchema/config-lists", fd.Pos(), "loops over the supplied types / directives not found")
+		})
 	}
-	_ = types.Typ
+	if n < 2 {
+		r.Unknown("NewSchema/config-lists", ns.Pos(), "loops over the supplied types / directives not found")
+	}
 }
 
 func init() {
@@ -572,4 +620,15 @@ func c11Identity(c *core.Ctx, r *core.Reporter) {
 	if n == 0 {
 		r.Bad("typeMapReducer/lookups", fn.Pos(), "typeMapReducer never consults the type map: no uniqueness check of named types")
 	}
+}
+
+// reflectIsNil: an interface holding a nil pointer (ast.Stmt(nil) stored in an ast.Node).
+func reflectIsNil(n ast.Node) bool {
+	switch x := n.(type) {
+	case ast.Stmt:
+		return x == nil
+	case ast.Expr:
+		return x == nil
+	}
+	return n == nil
 }
